@@ -51,6 +51,18 @@ def dense(node):
         return Ref(r.M.conj().T, r.B.T, r.dtype, r.eps)
     if k in ("NoDispatch", "Annot"):
         return dense(node["arg"])
+    if k == "Scaled":  # c * A through the public overload
+        r = dense(node["arg"])
+        c = P.as_scalar(node["c"])
+        dt = np.result_type(r.dtype, np.complex64) if isinstance(c, complex) else r.dtype
+        return Ref(c * r.M, abs(c) * r.B, dt, r.eps)
+    if k == "Gram":  # A^T A, A^H A, A A^T, A A^H  (the factor appears twice)
+        r = dense(node["arg"])
+        f = node["form"]
+        X = r.M.T if "T" in f else r.M.conj().T
+        M = X @ r.M if f in ("TA", "HA") else r.M @ X
+        Bd = r.B.T @ r.B if f in ("TA", "HA") else r.B @ r.B.T
+        return Ref(M, Bd, r.dtype, r.eps)
     if k == "Sliced":
         r = dense(node["arg"])
         i0 = to_index(node["slices"][0], r.M.shape[0])
@@ -253,8 +265,11 @@ def shape_of(node):
     if k in ("Transpose", "Adjoint"):
         s = shape_of(node["arg"])
         return (s[1], s[0])
-    if k in ("NoDispatch", "Annot"):
+    if k in ("NoDispatch", "Annot", "Scaled"):
         return shape_of(node["arg"])
+    if k == "Gram":
+        s = shape_of(node["arg"])
+        return (s[1], s[1]) if node["form"] in ("TA", "HA") else (s[0], s[0])
     if k == "Sliced":
         s = shape_of(node["arg"])
         r = np.arange(s[0])[to_index(node["slices"][0], s[0])]
@@ -282,9 +297,12 @@ def signature(node):
     """Canonical structure string: kinds + shapes + dtypes (+ flags), no payload seeds."""
     k = node["k"]
     flags = ""
-    for f in ("dt", "via", "axis", "mult", "lower", "sorted", "dups", "name", "gen", "fn", "bs1", "bs2"):
+    for f in ("dt", "via", "axis", "mult", "lower", "sorted", "dups", "name", "gen", "fn", "bs1", "bs2", "form", "same"):
         if f in node:
             flags += f"{f}={node[f]};"
+    if k == "Scaled":
+        c = P.as_scalar(node["c"])
+        flags += "c=" + ("complex" if isinstance(c, complex) else ("neg" if c < 0 else ("unit" if abs(c) == 1 else "pos"))) + ";"
     if k == "Sliced":
         flags += "sl=" + "/".join("s" if "s" in s else "i" for s in node["slices"]) + ";"
     cs = children(node)
